@@ -165,10 +165,11 @@ CLAIMS['C13'] = {
             'on earlier dispatches.',
     'note': 'not decided by this technique: the quantifier over THREAD schedules (single-task reasoning only; the frame '
             'shows there is no shared library state a second thread could observe being written); CPython-level retention '
-            '(reference cycles, tracebacks, logging handlers) is outside the heap model; Method.bind / the validators are an '
-            'assumed contract here (their lru_cache on signature() retains (validator, method, exclude-tuple) keys - bounded '
-            'by the number of methods, not by the number of requests; argued, not proved); user callables (methods, '
-            'middlewares, error handlers) may retain what they like',
+            '(reference cycles, tracebacks, caches of the standard library) is outside the heap model - functools.lru_cache is '
+            'modelled as transparent - and is covered by the BOUNDED stand-in per_request_retention only (weak references to '
+            '40 contexts / view instances per configuration after gc; it found the signature cache of the validators '
+            'retaining every class-based-view instance and its context - repaired, known_findings.json); Method.bind / the '
+            'validators are an assumed contract in the frame proof; user callables may retain what they like',
 }
 CLAIMS['C04'] = {
     'text': 'Method.bind, BaseValidator.validate_method and BaseValidator.bind are proved against contracts in which '
@@ -197,8 +198,9 @@ CLAIMS['C16'] = {
     'note': 'NOT covered by any obligation: validity of the documents against the OpenAPI / OpenRPC meta-schemas, $ref '
             'closure, completeness (every method exactly once), absence of cross-method leakage through shared component '
             'maps, determinism of repeated generation - they depend on pydantic / dataclasses internals outside the reach '
-            'of contracts here (a native generator-level probe, replayers/c16.py, accompanies violations but is not a '
-            'check). OpenRPC._extract_errors is not under contract (allocating comprehension); one loop invariant of '
+            'of contracts here; the BOUNDED stand-in spec_generation_smoke (12 generator x extractor x method-set cases, 3 '
+            'generations each: no exception, JSON-encodable, every method once, identical on repetition, annotations '
+            'unchanged - labelled bounded) and the native probe replayers/c16.py stand in for them. OpenRPC._extract_errors is not under contract (allocating comprehension); one loop invariant of '
             'OpenAPI._extract_errors (its own defaultdict holds its own lists) is assumed; schema extractors are abstract '
             'user objects (A-user)',
 }
